@@ -465,9 +465,18 @@ def run_group(ctx, name, T, cuser, init_fs, ops, env=None, label="single"):
     async def main():
         try:
             d = await rig.deploy()
-            ctx.require(d["exc"] is None, "deployment of scenario %s failed on the fake docker: %r" % (name, d["exc"]))
             lifecycle_events(ctx, rig, d["events"], trace, "deploy")
             trace.append(deploy_ret(rig, d))
+            det = {"kind": "group_deploy", "scenario": label, "table": T, "cuser": cuser, "init_fs": init_fs, "env": env}
+            if any(e.get("cmd") == "run" and e.get("ok") and not e.get("prepared") for e in trace if e.get("e") == "cli"):
+                ctx.violation("deploy:prepare_volumes:%s" % env_class(env), det,
+                              "`docker run` found bind sources missing: _prepare_volumes did not create them [%s]" % name)
+            if d["exc"] is not None:
+                missing = "bind source path does not exist" in str(d["exc"])
+                ctx.violation("deploy:%s:%s" % ("prepare_volumes" if missing else "outcome", env_class(env)), dict(det, exc=_exc(d["exc"])),
+                              "deploy of scenario %s raised %s, the model deploys" % (name, _exc(d["exc"])))
+                out["traces"].append(trace)
+                return
             prefix = list(trace)
             base_h, base_c = rig.snapshot()
             for k, last in ops:
@@ -917,6 +926,9 @@ def replay(ctx, data):
         check_eff_case(ctx, d["case"])
     elif k == "hw":
         check_hw_case(ctx, d["case"], ctx.scratch("worlds"), 0)
+    elif k == "group_deploy":
+        os.chdir(ctx.scratch("cwd"))
+        run_group(ctx, "replay", d["table"], d["cuser"], d["init_fs"], [], env=d["env"], label=d["scenario"])
     elif k == "copy":
         os.chdir(ctx.scratch("cwd"))
         run_group(ctx, "replay", d["table"], d["cuser"], d["init_fs"], [(0, d["last"])], env=d["env"], label=d["scenario"])
